@@ -9,7 +9,7 @@ from harness import common as C
 from harness import probes
 
 PROP = "C08"
-TARGETS = ["IbicusModel.Props.C08"]
+TARGETS = ["IbicusModel.Props.C08", "IbicusModel.Props.Calendar", "IbicusModel.Props.CalendarAgree"]
 GEN = ["Windows"]
 
 
@@ -129,6 +129,10 @@ def run(tier, res, force_search=False):
         mismatches.append({"op": "driver", "case": {}, "impl": "", "model": f"{type(ex).__name__}: {str(ex)[:300]}"})
     if mismatches:
         res.tie_broken.append(f"correspondence DrvWindows/reassembly: {len(mismatches)} mismatches, first: {mismatches[0]}")
+    cal_mismatches = probes.calendar_correspondence(rng, tier, res, problems)
+    if cal_mismatches:
+        res.tie_broken.append(f"correspondence DrvCalendar: {len(cal_mismatches)} mismatches, first: {cal_mismatches[0]}")
+        mismatches = mismatches + cal_mismatches
 
     # ---- the property's oracle on the real code: perturb everything outside the neighbourhood of a target day.
     # Systematic over debiaser x scenario: calendars of the reference series (unequal lengths / equal lengths starting on the
@@ -146,7 +150,9 @@ def run(tier, res, force_search=False):
         # scenarios each; partial-year reference records (a window of the target day holds no reference value at all)
         plan = [(name, scen) for name in all_names for scen in scenarios]
         if tier == "quick" and not (force_search or not lean_ok or mismatches):
-            plan += [(name, "unequal" if (i + rep + C.seed()) % 2 else rng.choice(scenarios[1:])) for i, name in enumerate(extra_names)]
+            # quick: every second further configuration per run (which ones alternates with the seed), one scenario each
+            plan += [(name, "unequal" if (i // 2 + rep + C.seed()) % 2 else rng.choice(scenarios[1:]))
+                     for i, name in enumerate(extra_names) if (i + rep + C.seed()) % 2 == 0]
         else:
             plan += [(name, scen) for name in extra_names for scen in ("unequal", rng.choice(scenarios[1:]))]
         plan += [("LinearScaling", "partial-year"), ("DeltaChange", "partial-year"), ("LinearScaling-pr", "partial-year")]
@@ -200,6 +206,8 @@ def run(tier, res, force_search=False):
                     L = S + rng.choice([16, 30])  # room for a larger step at construction
                 if name not in all_names and not name.startswith(("LinearScaling", "DeltaChange")):
                     L = max(L, 31)  # precipitation / non-normal fits: enough (wet) values in every window to fit a distribution
+                elif name not in all_names:
+                    L = max(L, 15)  # multiplicative scaling of precipitation: no all-dry window (0/0)
                 Ln, Sn = L + (L % 2 == 0), S + (S % 2 == 0)
                 k_near = Ln // 2 + Sn // 2
                 if name in all_names:
@@ -299,6 +307,10 @@ def run(tier, res, force_search=False):
                     # not depend on the far-away data
                     if not (a[ti] == b[ti] or (np.isnan(a[ti]) and np.isnan(b[ti]))):
                         problems.append((f"{name} [{scen}]: value on day {t} changed ({a[ti]!r} -> {b[ti]!r}) although the reference record has no value within L//2+S//2={k_near} days of it and only such far-away data was changed", case))
+                elif np.isnan(a[ti]) and np.isnan(b[ti]):
+                    # a legitimately undefined value (e.g. a one-day window on day 366 and a reference record without a leap
+                    # day: empty sample) stays undefined: unchanged.  Counted; that every step is DEFINED is C07's statement.
+                    res.extra["locality_targets_nan_in_both_runs"] = res.extra.get("locality_targets_nan_in_both_runs", 0) + 1
                 elif not (a[ti] == b[ti] and np.isfinite(a[ti])):
                     problems.append((f"{name} [{scen}]: value on day {t} changed ({a[ti]!r} -> {b[ti]!r}) although only data more than L//2+S//2={k_near} days away was changed", case))
                 # the window really reaches L//2 days: LinearScaling with S = 1 must react to a change at distance exactly L//2
